@@ -259,7 +259,7 @@ func (dp *DPoVP) saveNewBlock(block *types.Block) error {
 func (dp *DPoVP) onCurrentChanged(oldCurrent, newCurrent *types.Block) {
 	if newCurrent.ParentHash() == oldCurrent.Hash() {
 		// remove the transactions on new current block
-		dp.txPool.DelTxs(newCurrent.Txs)
+		dp.txPool.DelTxs(withSubTxs(newCurrent.Txs))
 	} else {
 		// fork switched!
 		// get the transactions from old fork and new fork to the same parent of them
@@ -271,11 +271,28 @@ func (dp *DPoVP) onCurrentChanged(oldCurrent, newCurrent *types.Block) {
 		// put the transactions on old fork to tx pool
 		dp.txPool.AddTxs(oldForkTxs)
 		// remove the transactions on new fork from tx pool
-		dp.txPool.DelTxs(newForkTxs)
+		dp.txPool.DelTxs(withSubTxs(newForkTxs))
 	}
 
 	// send current block change event
 	go dp.currentFeed.Send(newCurrent)
+}
+
+// withSubTxs returns the transactions followed by the sub transactions of the box transactions among them. A packaged box has executed its sub transactions, so they must leave the tx pool too, wherever they are pooled: on their own or in another box
+func withSubTxs(txs types.Transactions) types.Transactions {
+	result := make(types.Transactions, 0, len(txs))
+	result = append(result, txs...)
+	for _, tx := range txs {
+		if tx.Type() != params.BoxTx {
+			continue
+		}
+		box, err := types.GetBox(tx.Data())
+		if err != nil {
+			continue
+		}
+		result = append(result, box.SubTxList...)
+	}
+	return result
 }
 
 // onStableChanged
